@@ -20,7 +20,8 @@ def lgb_case(n, g, rng):
     return Case([{"op": "assets.lgbread", "case": n, "_hex": b.hex(), "bytes": list(b), "abs": ab,
                   "markerkinds": ["DebugZonePop", "DebugJump", "NaviMesh", "LQEvent"], "popkinds": ["PC", "Npc", "Content"],
                   "envshapes": ["Ellipsoid", "Cuboid", "Cylinder"], "boxshapes": ["Box", "Sphere", "Cylinder", "Board", "Mesh", "BoardBothSides"],
-                  "exitkinds": ["ZoneLine"], "collisionkinds": ["None", "Replace", "Box"]}],
+                  "exitkinds": ["ZoneLine"], "collisionkinds": ["None", "Replace", "Box"],
+                  "doorstates": ["Auto", "Open", "Closed"], "rotationstates": ["Rounding", "Stopped"], "playstates": ["Play", "Stop", "Replay", "Reset"]}],
                 desc={"layer group": {"layers": len(g["layers"]), "objects": [len(l["objects"]) for l in g["layers"]], "bytes": len(b)}},
                 nontrivial=any(l["objects"] for l in g["layers"]))
 
@@ -31,7 +32,7 @@ def check(run):
     run.model_check("mc/MC_LayerGroup.tla", "mc/MC_LayerGroup_wide.cfg", workers=4, coverage=False)
     run.model_check("mc/MC_LayerGroup.tla", "mc/MC_LayerGroup_quick.cfg" if run.tier == "quick" else "mc/MC_LayerGroup.cfg", workers=4, coverage=False)
     cases = [lgb_case(n, layergroup.random_group(rng), rng) for n in range(150 if run.tier == "quick" else 3000)]
-    run.rule = ("random layer groups: 0..5 layers x 0..6 instance objects (background models, position markers, pop ranges, environment sets, exit ranges), names of 0..12 bytes, objects "
+    run.rule = ("random layer groups: 0..5 layers x 0..6 instance objects (background models, position markers, shared groups, pop ranges, environment sets, exit ranges), names of 0..12 bytes, objects "
                 "stored in shuffled order with gaps, referenced-set lists of 0..3 ids, every header byte random; distinct by file bytes")
     run.exhaustive = False
     run.conform(cases, MODULE, CFG, shards=14, xmx="4g")
